@@ -6,4 +6,10 @@ for pkg in hypothesis jsonschema; do
     PIP_NO_INDEX=1 /venv/bin/pip install --no-index --find-links /opt/veriftools/wheels "$pkg"
   fi
 done
+# atheris (coverage-guided second engine of C03/C06/C07) goes beside /verif, not into /venv
+HERE="$(cd "$(dirname "$0")" && pwd)"
+if ! PYTHONPATH="$HERE/.deps" /venv/bin/python -c "import atheris" 2>/dev/null; then
+  PIP_NO_INDEX=1 /venv/bin/pip install -q --no-index --find-links /opt/veriftools/wheels --target "$HERE/.deps" atheris \
+    || echo "warning: atheris could not be installed; the fuzz part of C03/C06/C07 will be skipped (stated in evidence)"
+fi
 /venv/bin/python -c "import hypothesis, jsonschema, pymap; print('setup ok', hypothesis.__version__)"
